@@ -1368,8 +1368,9 @@ export class AllOfRuntype extends BaseRuntype {
       return annotateSchema(this.metadata, merged);
     }
 
+    // the members that could not be merged must not each forbid the properties the others declare
     return annotateSchema(this.metadata, {
-      allOf: schemas,
+      allOf: schemas.map(openObjectSchema),
     });
   }
   validate(ctx: ValidateContext, input: unknown): boolean {
@@ -1450,6 +1451,23 @@ function tryMergeAllOfObjectSchemas(schemas: JSONSchema7[]): JSONSchema7 | null 
     ...(required.size > 0 ? { required: [...required] } : {}),
     additionalProperties: false,
   };
+}
+
+function openObjectSchema(schema: JSONSchema7): JSONSchema7 {
+  if (typeof schema !== "object" || schema == null) {
+    return schema;
+  }
+  const out: JSONSchema7 = { ...schema };
+  if (out.type === "object" && out.additionalProperties === false) {
+    delete out.additionalProperties;
+  }
+  for (const key of ["anyOf", "oneOf", "allOf"] as const) {
+    const alternatives = out[key];
+    if (Array.isArray(alternatives)) {
+      out[key] = alternatives.map((it) => (typeof it === "object" ? openObjectSchema(it) : it));
+    }
+  }
+  return out;
 }
 
 function isMergeableClosedObjectSchema(schema: JSONSchema7): boolean {
